@@ -220,17 +220,37 @@ mutual
 def changesVariable : Node → Bool
   | .assign .. => true
   | .unop op e => op == "++" || op == "--" || op == "p++" || op == "p--" || changesVariable e
-  | .funcCall _ (some a) => changesVariable a
+  | .funcCall name args => changesVariable name || changesVariableO args
   | .binop _ l r => changesVariable l || changesVariable r
   | .cast e => changesVariable e
   | .ternary c t f => changesVariable c || changesVariable t || changesVariable f
   | .arrayRef n s => changesVariable n || changesVariable s
   | .exprList es => changesVariableL es
   | .other _ _ ks => changesVariableL ks
+  -- the remaining constructors cannot sit inside a C expression (pycparser has no statement
+  -- expressions); they are walked all the same so that the scan is the generic "any node below"
+  | .decl _ ty init => changesVariable ty || changesVariableO init
+  | .declList ds => changesVariableL ds
+  | .compound (some l) => changesVariableL l
+  | .ifs c t f => changesVariable c || changesVariableO t || changesVariableO f
+  | .while_ c b => changesVariable c || changesVariable b
+  | .doWhile c b => changesVariable c || changesVariable b
+  | .for_ i c x b => changesVariableO i || changesVariableO c || changesVariableO x || changesVariable b
+  | .ret e => changesVariableO e
+  | .label _ st => changesVariable st
+  | .switch c b => changesVariable c || changesVariable b
+  | .case_ e ss => changesVariable e || changesVariableL ss
+  | .default_ ss => changesVariableL ss
+  | .paramList ps => changesVariableL ps
+  | .funcDecl a => changesVariableO a
+  | .funcDef d b => changesVariable d || changesVariable b
   | _ => false
 def changesVariableL : List Node → Bool
   | [] => false
   | n :: ns => changesVariable n || changesVariableL ns
+def changesVariableO : Option Node → Bool
+  | none => false
+  | some n => changesVariable n
 end
 
 /-- operand of a supported binary operation: identifier or constant, casts transparent -/
@@ -287,12 +307,14 @@ def desugar : Node → Option Cmd
       else some .skip
     | r => if hasSideEffect r then none else some .skip
   | .funcCall name _ => if Syntax.isAssertAssume name then some .skip else none
-  | .ifs _ t f =>
-    match desugarO t, desugarO f with
-    | some a, some b => some (.ite a b)
-    | _, _ => none
-  | .while_ _ b => (desugar b).map .while_
-  | .doWhile _ b => (desugar b).map .while_
+  | .ifs c t f =>
+    -- the calculus treats guards as pure: a condition that changes a variable has no reading
+    if changesVariable c then none
+    else match desugarO t, desugarO f with
+      | some a, some b => some (.ite a b)
+      | _, _ => none
+  | .while_ c b => if changesVariable c then none else (desugar b).map .while_
+  | .doWhile c b => if changesVariable c then none else (desugar b).map .while_
   | n@(.for_ _ _ _ b) =>
     match Syntax.loopCompat n with
     | .ok (true, some X) => (desugar b).map (.loop X)
